@@ -47,5 +47,5 @@ def run(outcome, harness_map):
                    "thread layer: one Kani harness; non-trivial = refuted / SUCCESS with witnesses")
     cov["samples"] = [{"witnesses": cov.get("witnesses")}] + frag["samples"]
     return "model_checking", cov, ["the library summaries listed in the evidence (VecDeque, Option, Iterator, mpsc::Receiver::try_recv as a FIFO)",
-                                   "the scripted thread step stands for VmGreenThread::run_n_steps(1)", "composition with the thread layer and C17 is an argument",
+                                   "the scripted step stands for VmGreenThread::step() (VmGreenThread::run_n_steps itself is executed from its MIR, maybe_gc is a no-op)", "composition with the thread layer and C17 is an argument",
                                    "nightly MIR == stable semantics for these functions"]
